@@ -20,7 +20,8 @@ EXPLANATION = (
     "position, with the target gate's matrix factory; when the factory is that product times/divided by a scalar the "
     "rule drops a phase, which is only sound if the rule does not also match controlled gates (or compensates); (D4) "
     "the production returns the factors in circuit order (reverse of matrix order), re-applies exactly the "
-    "operation's own control count and qubit tuple, and passes the rule's angles through unmodified."
+    "operation's own control count and qubit tuple, and passes the rule's angles through unmodified. "
+    "(D4n) a rule's predicate answers False for non-gate operations instead of dereferencing `.gate`; (D4a) the angles reach the emitted gates unmodified (no element-wise transformation such as a reduction modulo 2*pi)."
 )
 RULE_TEXT = "instances = branches/comprehensions of the two chaining functions, the width construction, and per bundled rule: factor correspondences, phase scalar, control handling, ordering; distinct by (rule, construct)"
 ASSUMPTIONS = [
